@@ -423,7 +423,7 @@ for _p, _k, _v in (('C01', 'filter_options_with_defaults_written_out_as_None', 5
                    ('C17', 'long_recording:in_quantifier', 1), ('C18', 'flatten:2d_own_column_name', 3),
                    # round 15
                    ('C03', 'sig_view=int_buffer', 10000), ('C03', 'sig_view=buffer', 10000),
-                   ('C12', 'slices_with_rows_shorter_than_one_cycle', 4), ('C12', 'entries_for_epochs_without_cycles', 5),
+                   ('C12', 'slices_with_rows_shorter_than_one_cycle', 4), ('C12', 'entries_for_epochs_without_cycles', 3),
                    ('C18', 'limit_signal_window_after_the_last_sample', 300), ('C18', 'flatten_one_table_object_at_two_positions', 8),
                    ('C18', 'flatten_table_that_already_has_the_label_column', 10), ('C20', 'cyclepoints_of_a_table_with_dropped_rows', 30)):
     CONFIG[_p]['floors']['quick']['classes'][_k] = _v
